@@ -235,8 +235,87 @@ func C09(r *core.Run) {
 		})
 	})
 	deaths = append(deaths, d2...)
+	// --all: every assignment of {canonical, not canonical} to four files (three rule files, one include file):
+	// `format --all --check` fails exactly when some file is not canonical and writes nothing, `format --all`
+	// makes every file canonical, after which the check passes and a second run changes nothing
+	type allRes struct {
+		Runs int
+		Bad  []string
+	}
+	alls, d3 := core.Parallel(r, "all", spec, r.Workers, func(in in, shard, n int, emit func(allRes)) {
+		wd := filepath.Join(in.Dir, fmt.Sprint("a", shard))
+		head := raHeader1 + "\n" + raHeader2 + "\n\n"
+		canon := []string{head + "foo\nbar\n", head + "##!> assemble\n  x\n##!<\n", head + "##!+ i\nbaz\n", head + "one\n"}
+		messy := []string{"  foo\nbar\n\n\n", head + "##!>assemble\nx\n  ##!<\n", "##!+i\nbaz", head + "\tone\n"}
+		tidy := []string{head + "foo\nbar\n", head + "##!> assemble\n  x\n##!<\n", head + "##!+ i\nbaz\n", head + "one\n"}
+		names := []string{"regex-assembly/123456.ra", "regex-assembly/123457-chain1.ra", "regex-assembly/223456.ra", "regex-assembly/include/inc.ra"}
+		var o allRes
+		for mask := 0; mask < 16; mask++ {
+			for _, github := range []bool{false, true} {
+				if (mask*2+map[bool]int{false: 0, true: 1}[github])%n != shard {
+					continue
+				}
+				os.RemoveAll(wd)
+				t := core.Tree{"regex-assembly/toolchain.yaml": c01Yaml, "regex-assembly/exclude/": "", "rules/": ""}
+				for i, nme := range names {
+					if mask&(1<<i) != 0 {
+						t[nme] = messy[i]
+					} else {
+						t[nme] = canon[i]
+					}
+				}
+				t.Materialise(wd)
+				pre := []string{"-d", wd}
+				if github {
+					pre = append(pre, "-o", "github")
+				}
+				bad := func(f string, a ...any) {
+					o.Bad = append(o.Bad, fmt.Sprintf("files not canonical (bit set) %04b, github output %v: ", mask, github)+fmt.Sprintf(f, a...))
+				}
+				before := core.Snapshot(wd)
+				chk := core.RunCLI(r.Crs, wd, "", nil, append(pre, "regex", "format", "--all", "--check")...)
+				o.Runs++
+				if ch := before.Diff(core.Snapshot(wd), true); len(ch) > 0 {
+					bad("format --all --check changed %v", ch)
+				}
+				if (chk.Exit != 0) != (mask != 0) {
+					bad("format --all --check exits %d", chk.Exit)
+				}
+				f1 := core.RunCLI(r.Crs, wd, "", nil, append(pre, "regex", "format", "--all")...)
+				o.Runs++
+				got := core.ReadTree(wd)
+				for i, nme := range names {
+					if got[nme] != tidy[i] {
+						bad("after format --all (exit %d) %s is %q, canonical text is %q", f1.Exit, nme, got[nme], tidy[i])
+					}
+				}
+				chk2 := core.RunCLI(r.Crs, wd, "", nil, append(pre, "regex", "format", "--all", "--check")...)
+				f2 := core.RunCLI(r.Crs, wd, "", nil, append(pre, "regex", "format", "--all")...)
+				o.Runs += 2
+				if chk2.Exit != 0 || f2.Exit != 0 || treeHash(core.ReadTree(wd)) != treeHash(got) {
+					bad("after format --all the check exits %d and a second format --all (exit %d) changes files: %v", chk2.Exit, f2.Exit, treeHash(core.ReadTree(wd)) != treeHash(got))
+				}
+			}
+		}
+		emit(o)
+	})
+	deaths = append(deaths, d3...)
 	if r.IsWorker() {
 		return
+	}
+	allRuns := 0
+	seenAll := map[string]bool{}
+	for _, a := range alls {
+		allRuns += a.Runs
+		for _, b := range a.Bad {
+			_, msg, _ := strings.Cut(b, ": ")
+			k := strings.Join(strings.Fields(msg)[:3], " ")
+			if seenAll[k] {
+				continue
+			}
+			seenAll[k] = true
+			r.Report(core.Violation{Clause: "check-iff-fixpoint", Key: b, What: "format --all: " + b})
+		}
 	}
 	for _, d := range deaths {
 		r.HarnessError("worker %s/%d %s on %q: %s", d.Stage, d.Shard, d.Kind, d.Case, tailStr(d.Log, 300))
@@ -259,7 +338,8 @@ func C09(r *core.Run) {
 		tot.Fails = append(tot.Fails, o.Fails...)
 	}
 	reportFmtFails(r, tot.Fails)
-	r.Cov["evaluations"] = tot.Ops
+	r.Cov["evaluations"] = tot.Ops + allRuns
+	r.Cov["all_runs_cli"] = allRuns
 	r.Cov["states"] = tot.Files * 4
 	r.Cov["transitions"] = tot.Ops
 	r.Cov["files"] = tot.Files
